@@ -5933,6 +5933,73 @@ pub fn verif_checked_mul_FractionalNanosecond<R: RInto<ri32>>(x: ri32, rhs: R) -
     requires rhs.rinto_req(),
     ensures res.is_some() <==> in_FractionalNanosecond(x.val * rhs.rinto_spec().val), res.is_some() ==> res.unwrap().val == x.val * rhs.rinto_spec().val
 { unimplemented!() }
+pub type ZonedDayNanoseconds = ri64;
+pub open spec fn ZonedDayNanoseconds_MIN() -> int { 1000000000 }
+pub open spec fn ZonedDayNanoseconds_MAX() -> int { 604800000000000 }
+pub open spec fn in_ZonedDayNanoseconds(v: int) -> bool { 1000000000 <= v <= 604800000000000 }
+#[verifier::external_body]
+pub fn verif_try_rfrom_ZonedDayNanoseconds_8(r: ri8) -> (res: Result<ri64, Error>)
+    ensures res.is_ok() <==> in_ZonedDayNanoseconds(r.val as int), res.is_ok() ==> res.unwrap().val == r.val
+{ unimplemented!() }
+#[verifier::external_body]
+pub fn verif_try_rfrom_ZonedDayNanoseconds_16(r: ri16) -> (res: Result<ri64, Error>)
+    ensures res.is_ok() <==> in_ZonedDayNanoseconds(r.val as int), res.is_ok() ==> res.unwrap().val == r.val
+{ unimplemented!() }
+#[verifier::external_body]
+pub fn verif_try_rfrom_ZonedDayNanoseconds_32(r: ri32) -> (res: Result<ri64, Error>)
+    ensures res.is_ok() <==> in_ZonedDayNanoseconds(r.val as int), res.is_ok() ==> res.unwrap().val == r.val
+{ unimplemented!() }
+#[verifier::external_body]
+pub fn verif_try_rfrom_ZonedDayNanoseconds_64(r: ri64) -> (res: Result<ri64, Error>)
+    ensures res.is_ok() <==> in_ZonedDayNanoseconds(r.val as int), res.is_ok() ==> res.unwrap().val == r.val
+{ unimplemented!() }
+#[verifier::external_body]
+pub fn verif_try_rfrom_ZonedDayNanoseconds_128(r: ri128) -> (res: Result<ri64, Error>)
+    ensures res.is_ok() <==> in_ZonedDayNanoseconds(r.val as int), res.is_ok() ==> res.unwrap().val == r.val
+{ unimplemented!() }
+#[verifier::external_body]
+pub fn verif_try_new_ZonedDayNanoseconds(v: i64) -> (res: Result<ri64, Error>)
+    ensures res.is_ok() <==> in_ZonedDayNanoseconds(v as int), res.is_ok() ==> res.unwrap().val == v
+{ unimplemented!() }
+#[verifier::external_body]
+pub fn verif_try_new128_ZonedDayNanoseconds(v: i128) -> (res: Result<ri64, Error>)
+    ensures res.is_ok() <==> in_ZonedDayNanoseconds(v as int), res.is_ok() ==> res.unwrap().val == v
+{ unimplemented!() }
+// `ZonedDayNanoseconds::MIN` / `ZonedDayNanoseconds::MAX` (associated consts of type i128)
+pub fn verif_MIN_ZonedDayNanoseconds() -> (r: i128) ensures r == ZonedDayNanoseconds_MIN() { 1000000000 }
+pub fn verif_MAX_ZonedDayNanoseconds() -> (r: i128) ensures r == ZonedDayNanoseconds_MAX() { 604800000000000 }
+// `x.try_checked_mul("what", rhs)` with x: ZonedDayNanoseconds -- Ok iff the exact product lies within ZonedDayNanoseconds::MIN..=MAX
+#[verifier::external_body]
+pub fn verif_try_checked_mul_ZonedDayNanoseconds<R: RInto<ri64>>(x: ri64, rhs: R) -> (res: Result<ri64, Error>)
+    requires rhs.rinto_req(),
+    ensures res.is_ok() <==> in_ZonedDayNanoseconds(x.val * rhs.rinto_spec().val), res.is_ok() ==> res.unwrap().val == x.val * rhs.rinto_spec().val
+{ unimplemented!() }
+// `x.try_checked_add/sub("what", rhs)` and `x.checked_add/sub/mul(rhs)` with x: ZonedDayNanoseconds -- fail iff the exact result leaves ZonedDayNanoseconds::MIN..=MAX
+#[verifier::external_body]
+pub fn verif_try_checked_add_ZonedDayNanoseconds<R: RInto<ri64>>(x: ri64, rhs: R) -> (res: Result<ri64, Error>)
+    requires rhs.rinto_req(),
+    ensures res.is_ok() <==> in_ZonedDayNanoseconds(x.val + rhs.rinto_spec().val), res.is_ok() ==> res.unwrap().val == x.val + rhs.rinto_spec().val
+{ unimplemented!() }
+#[verifier::external_body]
+pub fn verif_try_checked_sub_ZonedDayNanoseconds<R: RInto<ri64>>(x: ri64, rhs: R) -> (res: Result<ri64, Error>)
+    requires rhs.rinto_req(),
+    ensures res.is_ok() <==> in_ZonedDayNanoseconds(x.val - rhs.rinto_spec().val), res.is_ok() ==> res.unwrap().val == x.val - rhs.rinto_spec().val
+{ unimplemented!() }
+#[verifier::external_body]
+pub fn verif_checked_add_ZonedDayNanoseconds<R: RInto<ri64>>(x: ri64, rhs: R) -> (res: Option<ri64>)
+    requires rhs.rinto_req(),
+    ensures res.is_some() <==> in_ZonedDayNanoseconds(x.val + rhs.rinto_spec().val), res.is_some() ==> res.unwrap().val == x.val + rhs.rinto_spec().val
+{ unimplemented!() }
+#[verifier::external_body]
+pub fn verif_checked_sub_ZonedDayNanoseconds<R: RInto<ri64>>(x: ri64, rhs: R) -> (res: Option<ri64>)
+    requires rhs.rinto_req(),
+    ensures res.is_some() <==> in_ZonedDayNanoseconds(x.val - rhs.rinto_spec().val), res.is_some() ==> res.unwrap().val == x.val - rhs.rinto_spec().val
+{ unimplemented!() }
+#[verifier::external_body]
+pub fn verif_checked_mul_ZonedDayNanoseconds<R: RInto<ri64>>(x: ri64, rhs: R) -> (res: Option<ri64>)
+    requires rhs.rinto_req(),
+    ensures res.is_some() <==> in_ZonedDayNanoseconds(x.val * rhs.rinto_spec().val), res.is_some() ==> res.unwrap().val == x.val * rhs.rinto_spec().val
+{ unimplemented!() }
 #[allow(non_camel_case_types)]
 pub trait TryRInto_SpanYears: Sized {
     spec fn try_rinto_val(self) -> int;
@@ -6220,526 +6287,143 @@ impl TryRInto_SpanZoneOffset for ri128 {
     fn try_rinto(self, what: &'static str) -> (res: Result<ri32, Error>) { verif_try_rfrom_SpanZoneOffset_128(self) }
 }
 
-// ---- include lib/rangeint_ext_spanround.vrs ----
-// Hand-written extension of the rangeint model (lib/rangeint.vrs) for unit `spanround`.
-// Same style as the generated file.  Nothing in this file is trusted: every function has a body that Verus checks
-// (against the generated model), so there is no new obligation for Kani.
+#[verifier::external_body] #[derive(Clone, Copy)] pub struct Timestamp { _p: () }
+#[verifier::external_body] #[derive(Clone, Copy)] pub struct DateTime { _p: () }
+#[verifier::external_body] #[derive(Clone, Copy)] pub struct Offset { _p: () }
+#[verifier::external_body] pub struct TimeZone { _p: () }
+#[verifier::external_body] pub struct Zoned { _p: () }
+#[verifier::external_body] #[derive(Clone, Copy)] pub struct Span { _p: () }
+#[verifier::external_body] #[derive(Clone, Copy, Debug)] pub struct DateTimeRound { _p: () }
+#[derive(Clone, Copy, PartialEq, Eq, Structural)]
+pub enum RoundMode { Ceil, Floor, Expand, Trunc, HalfCeil, HalfFloor, HalfExpand, HalfTrunc, HalfEven }
+#[derive(Clone, Copy, PartialEq, Eq, Structural)]
+pub enum Unit { Year, Month, Week, Day, Hour, Minute, Second, Millisecond, Microsecond, Nanosecond }
+impl vstd::std_specs::cmp::PartialEqSpecImpl for Offset { open spec fn obeys_eq_spec() -> bool { true } open spec fn eq_spec(&self, o: &Offset) -> bool { *self == *o } }
+impl PartialEq for Offset { #[verifier::external_body] fn eq(&self, o: &Offset) -> bool { unimplemented!() } }
+pub enum AmbiguousOffset {
+    Unambiguous { offset: Offset },
+    Gap { before: Offset, after: Offset },
+    Fold { before: Offset, after: Offset },
+}
+// ---- abstract semantics (each is the contract of a unit named in the comment)
+pub uninterp spec fn tz_amb(tz: TimeZone, dt: DateTime) -> AmbiguousOffset;          // C04 (tzif, posix)
+pub uninterp spec fn off_to_ts(o: Offset, dt: DateTime) -> Option<Timestamp>;        // C02 (itime, c02_wrappers)
+pub uninterp spec fn zoned_of(ts: Timestamp, tz: TimeZone) -> Zoned;                 // C13 (zoned): Zoned::new
+pub uninterp spec fn dt_round(cfg: DateTimeRound, dt: DateTime) -> Option<DateTime>; // C10 (rounders): DateTimeRound::round
+pub uninterp spec fn ts_ns(ts: Timestamp) -> int;                                    // instant in nanoseconds
+pub uninterp spec fn ts_of_ns(n: int) -> Timestamp;
+pub uninterp spec fn start_of_day_ts(z: &Zoned) -> Option<Timestamp>;                // C06 (zoned): Zoned::start_of_day
+pub uninterp spec fn add_one_day_ts(ts: Timestamp, tz: TimeZone) -> Option<Timestamp>; // C06 (zoned): checked_add of one calendar day
+pub open spec fn in_ts_range(n: int) -> bool { in_UnixNanoseconds(n) }
+/// C10: the nine-mode rounding of q to a multiple of inc (lib/roundspec.vrs `round_ok`), abstract here; unique by lemma_round_unique
+pub uninterp spec fn round_val(mode: RoundMode, q: int, inc: int) -> int;
 
-// ---- (S1) `i64::from(x)` / `x.into()` for a ranged integer x passed to an `I: Into<i64>` parameter (`Span::try_seconds(secs.rem_ceil(..))`
-//           in Span::from_invariant_nanoseconds, Unit::Minute arm).  Release mode (src/util/rangeint.rs:1050-1104): widening for ri8..ri64,
-//           `x.val as i64` for ri128 -- truncation is a precondition here, i.e. an obligation for the caller.  Same as E5 of rangeint_ext_civiladd.vrs.
-pub trait VerifIntoI64: Sized {
-    spec fn into_i64_req(self) -> bool;
-    spec fn into_i64_spec(self) -> i64;
-    fn verif_into_i64(self) -> (r: i64) requires self.into_i64_req() ensures r == self.into_i64_spec();
+pub struct AmbiguousTimestamp { pub dt: DateTime, pub offset: AmbiguousOffset }
+pub struct AmbiguousZoned { pub ts: AmbiguousTimestamp, pub tz: TimeZone }
+impl AmbiguousTimestamp {
+    pub fn new(dt: DateTime, kind: AmbiguousOffset) -> (r: AmbiguousTimestamp) ensures r.dt == dt, r.offset == kind { AmbiguousTimestamp { dt, offset: kind } }
+    #[verifier::external_body] pub fn offset(&self) -> (r: AmbiguousOffset) ensures r == self.offset { unimplemented!() }
+    pub fn into_ambiguous_zoned(self, tz: TimeZone) -> (r: AmbiguousZoned) ensures r.ts == self, r.tz == tz { AmbiguousZoned { ts: self, tz } }
 }
-impl VerifIntoI64 for i64 {
-    open spec fn into_i64_req(self) -> bool { true }
-    open spec fn into_i64_spec(self) -> i64 { self }
-    fn verif_into_i64(self) -> (r: i64) { self }
+pub open spec fn pick_compatible(a: AmbiguousOffset) -> Offset {
+    match a { AmbiguousOffset::Unambiguous { offset } => offset, AmbiguousOffset::Gap { before, after } => before, AmbiguousOffset::Fold { before, after } => before }
 }
-impl VerifIntoI64 for ri64 {
-    open spec fn into_i64_req(self) -> bool { true }
-    open spec fn into_i64_spec(self) -> i64 { self.val }
-    fn verif_into_i64(self) -> (r: i64) { self.val }
+impl AmbiguousZoned {
+    // unit ambig
+    #[verifier::external_body] pub fn compatible(self) -> (r: Result<Zoned, Error>)
+        ensures r.is_ok() == off_to_ts(pick_compatible(self.ts.offset), self.ts.dt).is_some(),
+                r.is_ok() ==> r.unwrap() == zoned_of(off_to_ts(pick_compatible(self.ts.offset), self.ts.dt).unwrap(), self.tz) { unimplemented!() }
 }
-impl VerifIntoI64 for ri128 {
-    open spec fn into_i64_req(self) -> bool { i64::MIN <= self.val <= i64::MAX }
-    open spec fn into_i64_spec(self) -> i64 { self.val as i64 }
-    fn verif_into_i64(self) -> (r: i64) { self.val as i64 }
+impl TimeZone {
+    #[verifier::external_body] pub fn clone(&self) -> (r: TimeZone) ensures r == *self { unimplemented!() }
+    #[verifier::external_body] pub fn to_ambiguous_timestamp(&self, dt: DateTime) -> (r: AmbiguousTimestamp) ensures r.dt == dt, r.offset == tz_amb(*self, dt) { unimplemented!() }
+    #[verifier::external_body] pub fn into_ambiguous_zoned(self, dt: DateTime) -> (r: AmbiguousZoned) ensures r.ts.dt == dt, r.ts.offset == tz_amb(self, dt), r.tz == self { unimplemented!() }
+    #[verifier::external_body] pub fn diagnostic_name(&self) -> (r: &'static str) { unimplemented!() }
 }
-
-// ---- include lib/tdiv.vrs ----
-pub proof fn lemma_tdiv(q: int, inc: int)
-    requires inc > 0,
-    ensures q == tdiv(q, inc) * inc + trem(q, inc), -inc < trem(q, inc) < inc,
-            q >= 0 ==> 0 <= trem(q, inc) <= q, q <= 0 ==> q <= trem(q, inc) <= 0,
-            -0x4000_0000_0000_0000_0000_0000 <= q <= 0x4000_0000_0000_0000_0000_0000 ==> -0x4000_0000_0000_0000_0000_0000 <= tdiv(q, inc) <= 0x4000_0000_0000_0000_0000_0000,
-{
-    if q >= 0 {
-        vstd::arithmetic::div_mod::lemma_fundamental_div_mod(q, inc);
-        vstd::arithmetic::div_mod::lemma_mod_bound(q, inc);
-        assert(inc * (q / inc) == (q / inc) * inc) by (nonlinear_arith);
-        assert(0 <= q / inc <= q) by (nonlinear_arith) requires q >= 0, inc > 0, q == inc * (q / inc) + q % inc, 0 <= q % inc < inc;
-    } else {
-        let p = -q;
-        vstd::arithmetic::div_mod::lemma_fundamental_div_mod(p, inc);
-        vstd::arithmetic::div_mod::lemma_mod_bound(p, inc);
-        assert(inc * (p / inc) == (p / inc) * inc) by (nonlinear_arith);
-        assert((-(p / inc)) * inc == -((p / inc) * inc)) by (nonlinear_arith);
-        assert(0 <= p / inc <= p) by (nonlinear_arith) requires p >= 0, inc > 0, p == inc * (p / inc) + p % inc, 0 <= p % inc < inc;
-    }
+impl DateTimeRound {
+    #[verifier::external_body] pub fn get_smallest(&self) -> (r: Unit) ensures r == cfg_smallest(*self) { unimplemented!() }
+    #[verifier::external_body] pub fn get_increment(&self) -> (r: i64) ensures r == cfg_increment(*self) { unimplemented!() }
+    #[verifier::external_body] pub fn get_mode(&self) -> (r: RoundMode) ensures r == cfg_mode(*self) { unimplemented!() }
+    #[verifier::external_body] pub fn round(&self, dt: DateTime) -> (r: Result<DateTime, Error>)
+        ensures r.is_ok() == dt_round(*self, dt).is_some(), r.is_ok() ==> r.unwrap() == dt_round(*self, dt).unwrap() { unimplemented!() }
 }
-
-// ---- include lib/roundspec.vrs ----
-// C10: what "rounding q to a multiple of inc under mode" means, from the property statement.
-pub open spec fn is_half(mode: RoundMode) -> bool {
-    mode == RoundMode::HalfCeil || mode == RoundMode::HalfFloor || mode == RoundMode::HalfExpand || mode == RoundMode::HalfTrunc || mode == RoundMode::HalfEven
+pub uninterp spec fn cfg_smallest(c: DateTimeRound) -> Unit;
+pub uninterp spec fn cfg_increment(c: DateTimeRound) -> i64;
+pub uninterp spec fn cfg_mode(c: DateTimeRound) -> RoundMode;
+pub mod increment {
+    use super::*;
+    // c10_increment / rounders: for Unit::Day only increment 1 is legal
+    #[verifier::external_body] pub fn for_datetime(unit: Unit, increment: i64) -> (r: Result<ri128, Error>)
+        ensures unit == Unit::Day ==> (r.is_ok() <==> increment == 1) { unimplemented!() }
 }
-pub open spec fn is_tie(q: int, inc: int, r: int) -> bool { 2 * (r - q) == inc || 2 * (r - q) == -inc }
-pub open spec fn round_ok(mode: RoundMode, q: int, inc: int, r: int) -> bool {
-    &&& r % inc == 0                                   // whole multiple of the increment
-    &&& -inc < r - q < inc                             // differs by less than one increment
-    &&& (mode == RoundMode::Ceil ==> r >= q)
-    &&& (mode == RoundMode::Floor ==> r <= q)
-    &&& (mode == RoundMode::Trunc ==> (if q >= 0 { 0 <= r <= q } else { q <= r <= 0 }))
-    &&& (mode == RoundMode::Expand ==> (if q >= 0 { r >= q } else { r <= q }))
-    &&& (is_half(mode) ==> -inc <= 2 * (r - q) <= inc)           // nearest
-    &&& (mode == RoundMode::HalfCeil && is_tie(q, inc, r) ==> r > q)
-    &&& (mode == RoundMode::HalfFloor && is_tie(q, inc, r) ==> r < q)
-    &&& (mode == RoundMode::HalfExpand && is_tie(q, inc, r) ==> (if q >= 0 { r > q } else { r < q }))
-    &&& (mode == RoundMode::HalfTrunc && is_tie(q, inc, r) ==> (if q >= 0 { r < q } else { r > q }))
-    &&& (mode == RoundMode::HalfEven && is_tie(q, inc, r) ==> r % (2 * inc) == 0)
+impl RoundMode {
+    // RoundMode::round (units round, rounders): result is THE value satisfying round_ok
+    #[verifier::external_body] pub fn verif_round(self, quantity: ri128, increment: ri64) -> (r: ri128)
+        requires 0 < increment.val, -0x4000_0000_0000_0000_0000_0000 <= quantity.val <= 0x4000_0000_0000_0000_0000_0000,
+        ensures r.val == round_val(self, quantity.val as int, increment.val as int),
+                // consequences of round_ok used here: within one increment of the quantity
+                -increment.val < r.val - quantity.val < increment.val { unimplemented!() }
 }
-// the rounded value is unique: any two results satisfying round_ok coincide (so round_ok *defines* rounding)
-pub proof fn lemma_round_unique(mode: RoundMode, q: int, inc: int, r1: int, r2: int)
-    requires inc > 0, round_ok(mode, q, inc, r1), round_ok(mode, q, inc, r2),
-    ensures r1 == r2,
-{
-    // both are multiples of inc within (q - inc, q + inc): they are equal or differ by exactly inc
-    let k1 = r1 / inc; let k2 = r2 / inc;
-    vstd::arithmetic::div_mod::lemma_fundamental_div_mod(r1, inc);
-    vstd::arithmetic::div_mod::lemma_fundamental_div_mod(r2, inc);
-    assert(r1 == inc * k1 && r2 == inc * k2);
-    if r1 != r2 {
-        assert(-2 * inc < r1 - r2 < 2 * inc);
-        assert(r1 - r2 == inc * (k1 - k2)) by (nonlinear_arith) requires r1 == inc * k1, r2 == inc * k2;
-        assert(k1 - k2 == 1 || k1 - k2 == -1) by (nonlinear_arith) requires r1 - r2 == inc * (k1 - k2), -2 * inc < r1 - r2 < 2 * inc, inc > 0, r1 != r2;
-        let lo = if r1 < r2 { r1 } else { r2 };
-        let hi = if r1 < r2 { r2 } else { r1 };
-        if k1 - k2 == 1 { assert(r1 - r2 == inc) by (nonlinear_arith) requires r1 - r2 == inc * (k1 - k2), k1 - k2 == 1; }
-        else { assert(r1 - r2 == -inc) by (nonlinear_arith) requires r1 - r2 == inc * (k1 - k2), k1 - k2 == -1; }
-        assert(hi - lo == inc);
-        // q lies strictly between lo and hi (both within inc of q and q is not a multiple, else r==q forced)
-        assert(lo < q < hi || q == lo || q == hi);
-        if q == lo || q == hi { assert(false); }   // then the other one is a full increment away
-        if mode == RoundMode::HalfEven && is_tie(q, inc, r1) {
-            // consecutive multiples of inc cannot both be multiples of 2*inc
-            let klo = lo / inc;
-            vstd::arithmetic::div_mod::lemma_fundamental_div_mod(lo, inc);
-            assert(lo % inc == 0 && hi % inc == 0);
-            assert(false) by {
-                vstd::arithmetic::div_mod::lemma_fundamental_div_mod(lo, 2 * inc);
-                vstd::arithmetic::div_mod::lemma_fundamental_div_mod(hi, 2 * inc);
-                let a = lo / (2 * inc); let b = hi / (2 * inc);
-                assert(lo == (2 * inc) * a && hi == (2 * inc) * b);
-                assert(hi - lo == (2 * inc) * (b - a)) by (nonlinear_arith) requires lo == (2 * inc) * a, hi == (2 * inc) * b;
-                assert(false) by (nonlinear_arith) requires hi - lo == inc, hi - lo == (2 * inc) * (b - a), inc > 0;
-            }
-        }
-    }
+impl Zoned {
+    pub uninterp spec fn ts(&self) -> Timestamp;
+    pub uninterp spec fn dt(&self) -> DateTime;
+    pub uninterp spec fn off(&self) -> Offset;
+    pub uninterp spec fn tz(&self) -> TimeZone;
+    #[verifier::external_body] pub fn timestamp(&self) -> (r: Timestamp) ensures r == self.ts() { unimplemented!() }
+    #[verifier::external_body] pub fn datetime(&self) -> (r: DateTime) ensures r == self.dt() { unimplemented!() }
+    #[verifier::external_body] pub fn offset(&self) -> (r: Offset) ensures r == self.off() { unimplemented!() }
+    #[verifier::external_body] pub fn time_zone(&self) -> (r: &TimeZone) ensures *r == self.tz() { unimplemented!() }
+    // unit zoned
+    #[verifier::external_body] pub fn start_of_day(&self) -> (r: Result<Zoned, Error>)
+        ensures r.is_ok() == start_of_day_ts(self).is_some(), r.is_ok() ==> r.unwrap() == zoned_of(start_of_day_ts(self).unwrap(), self.tz()) && r.unwrap().ts() == start_of_day_ts(self).unwrap() && r.unwrap().tz() == self.tz() { unimplemented!() }
+    #[verifier::external_body] pub fn checked_add(&self, s: Span) -> (r: Result<Zoned, Error>)
+        requires s == span_one_day(),
+        ensures r.is_ok() == add_one_day_ts(self.ts(), self.tz()).is_some(), r.is_ok() ==> r.unwrap().ts() == add_one_day_ts(self.ts(), self.tz()).unwrap() { unimplemented!() }
 }
-
-// constants of src/util/t.rs (values re-checked against the real constants by Kani: c10_model::constants)
-pub const NANOS_PER_MICRO: Constant = Constant(1_000);
-pub const NANOS_PER_MILLI: Constant = Constant(1_000_000);
-pub const NANOS_PER_SECOND: Constant = Constant(1_000_000_000);
-pub const NANOS_PER_MINUTE: Constant = Constant(60_000_000_000);
-pub const NANOS_PER_HOUR: Constant = Constant(3_600_000_000_000);
-pub const NANOS_PER_CIVIL_DAY: Constant = Constant(86_400_000_000_000);
-pub const NANOS_PER_CIVIL_WEEK: Constant = Constant(604_800_000_000_000);
-pub const MICROS_PER_MILLI: Constant = Constant(1_000);
-pub const MILLIS_PER_SECOND: Constant = Constant(1_000);
-pub const SECONDS_PER_MINUTE: Constant = Constant(60);
-pub const MINUTES_PER_HOUR: Constant = Constant(60);
-pub const HOURS_PER_CIVIL_DAY: Constant = Constant(24);
-pub const DAYS_PER_CIVIL_WEEK: Constant = Constant(7);
-
+pub uninterp spec fn span_one_day() -> Span;
+pub uninterp spec fn span_ns(s: Span) -> int;
+#[verifier::external_body] pub fn verif_span_one_day() -> (r: Span) ensures r == span_one_day() { unimplemented!() }
+impl Span {
+    #[verifier::external_body] pub fn get_nanoseconds_ranged(&self) -> (r: SpanNanoseconds) ensures r.val == span_ns(*self) { unimplemented!() }
+}
+impl Timestamp {
+    // unit tsarith: until with largest unit Nanosecond is the exact distance, Err iff it exceeds the nanosecond limit of a Span
+    #[verifier::external_body] pub fn until_nanoseconds(self, other: Timestamp) -> (r: Result<Span, Error>)
+        ensures r.is_ok() <==> in_SpanNanoseconds(ts_ns(other) - ts_ns(self)), r.is_ok() ==> span_ns(r.unwrap()) == ts_ns(other) - ts_ns(self) { unimplemented!() }
+    #[verifier::external_body] pub fn as_nanosecond_ranged(self) -> (r: UnixNanoseconds) ensures r.val == ts_ns(self), in_ts_range(ts_ns(self)) { unimplemented!() }
+    #[verifier::external_body] pub fn from_nanosecond_ranged(n: UnixNanoseconds) -> (r: Timestamp)
+        requires in_ts_range(n.val as int), ensures ts_ns(r) == n.val, r == ts_of_ns(n.val as int) { unimplemented!() }
+    #[verifier::external_body] pub fn to_zoned(self, tz: TimeZone) -> (r: Zoned) ensures r == zoned_of(self, tz) { unimplemented!() }
+}
+impl ri128 {
+    pub fn verif_m_try_checked_add_UnixNanoseconds(self, rhs: ri128) -> (res: Result<ri128, Error>)
+        ensures res.is_ok() <==> in_UnixNanoseconds(self.val + rhs.val), res.is_ok() ==> res.unwrap().val == self.val + rhs.val
+    { verif_try_checked_add_UnixNanoseconds(self, rhs) }
+}
 pub trait VerifCtx: Sized { fn verif_with_context(self) -> Self; }
 impl<T> VerifCtx for Result<T, Error> {
     #[verifier::external_body]
     fn verif_with_context(self) -> (r: Self) ensures r.is_ok() == self.is_ok(), self.is_ok() ==> r.unwrap() == self.unwrap() { unimplemented!() }
 }
 
-// derived `PartialOrd` on the fieldless enum Unit = order of discriminants (same trusted view as in rounders.vrs / span.vrs; Kani: c10_model::unit_order)
-pub open spec fn unit_rank(u: Unit) -> int {
-    match u { Unit::Year => 9, Unit::Month => 8, Unit::Week => 7, Unit::Day => 6, Unit::Hour => 5, Unit::Minute => 4,
-              Unit::Second => 3, Unit::Millisecond => 2, Unit::Microsecond => 1, Unit::Nanosecond => 0 }
-}
-impl PartialOrdSpecImpl for Unit {
-    open spec fn obeys_partial_cmp_spec() -> bool { true }
-    open spec fn partial_cmp_spec(&self, other: &Unit) -> Option<Ordering> { Some(int_cmp(unit_rank(*self), unit_rank(*other))) }
-}
-impl PartialOrd for Unit {
-    #[verifier::external_body]
-    fn partial_cmp(&self, other: &Unit) -> Option<Ordering> { unimplemented!() }
-}
-/// nanoseconds in one `u` for the uniform units (rounders.vrs)
-pub open spec fn unit_ns(u: Unit) -> int {
-    match u { Unit::Nanosecond => 1, Unit::Microsecond => 1_000, Unit::Millisecond => 1_000_000, Unit::Second => 1_000_000_000,
-              Unit::Minute => 60_000_000_000, Unit::Hour => 3_600_000_000_000, Unit::Day => 86_400_000_000_000, Unit::Week => 604_800_000_000_000,
-              _ => 0 }
-}
-
-// ---- the abstract value of a span: ten signed integers (definitions of span.vrs, C12) ----------------------------------------
-pub struct SV { pub y: int, pub mo: int, pub w: int, pub d: int, pub h: int, pub mi: int, pub s: int, pub ms: int, pub us: int, pub ns: int }
-pub open spec fn iabs(a: int) -> int { if a < 0 { -a } else { a } }
-pub open spec fn isgn(a: int) -> int { if a < 0 { -1 } else if a > 0 { 1 } else { 0 } }
-pub open spec fn smul(s: int, m: int) -> int { if s > 0 { m } else if s < 0 { -m } else { 0 } }
-pub open spec fn sv_zero() -> SV { SV { y: 0, mo: 0, w: 0, d: 0, h: 0, mi: 0, s: 0, ms: 0, us: 0, ns: 0 } }
-pub open spec fn sv_get(a: SV, j: int) -> int {
-    if j == 9 { a.y } else if j == 8 { a.mo } else if j == 7 { a.w } else if j == 6 { a.d } else if j == 5 { a.h } else if j == 4 { a.mi }
-    else if j == 3 { a.s } else if j == 2 { a.ms } else if j == 1 { a.us } else if j == 0 { a.ns } else { 0 }
-}
-pub open spec fn sv_put(a: SV, j: int, x: int) -> SV {
-    SV { y: if j == 9 { x } else { a.y }, mo: if j == 8 { x } else { a.mo }, w: if j == 7 { x } else { a.w }, d: if j == 6 { x } else { a.d },
-         h: if j == 5 { x } else { a.h }, mi: if j == 4 { x } else { a.mi }, s: if j == 3 { x } else { a.s }, ms: if j == 2 { x } else { a.ms },
-         us: if j == 1 { x } else { a.us }, ns: if j == 0 { x } else { a.ns } }
-}
-pub open spec fn sv_abs(a: SV) -> SV {
-    SV { y: iabs(a.y), mo: iabs(a.mo), w: iabs(a.w), d: iabs(a.d), h: iabs(a.h), mi: iabs(a.mi), s: iabs(a.s), ms: iabs(a.ms), us: iabs(a.us), ns: iabs(a.ns) }
-}
-pub open spec fn sv_signed(s: int, a: SV) -> SV {
-    SV { y: smul(s, a.y), mo: smul(s, a.mo), w: smul(s, a.w), d: smul(s, a.d), h: smul(s, a.h), mi: smul(s, a.mi), s: smul(s, a.s), ms: smul(s, a.ms), us: smul(s, a.us), ns: smul(s, a.ns) }
-}
-pub open spec fn sv_is_zero(a: SV) -> bool { a == sv_zero() }
-pub open spec fn sv_nonneg(a: SV) -> bool { a.y >= 0 && a.mo >= 0 && a.w >= 0 && a.d >= 0 && a.h >= 0 && a.mi >= 0 && a.s >= 0 && a.ms >= 0 && a.us >= 0 && a.ns >= 0 }
-pub open spec fn sv_nonpos(a: SV) -> bool { a.y <= 0 && a.mo <= 0 && a.w <= 0 && a.d <= 0 && a.h <= 0 && a.mi <= 0 && a.s <= 0 && a.ms <= 0 && a.us <= 0 && a.ns <= 0 }
-/// -1 if some unit is negative, 1 if none is negative and some is positive, 0 otherwise
-pub open spec fn sv_sign(a: SV) -> int { if !sv_nonneg(a) { -1 } else if sv_is_zero(a) { 0 } else { 1 } }
-/// "all its non-zero units always share one sign"
-pub open spec fn sv_one_sign(a: SV) -> bool { sv_nonneg(a) || sv_nonpos(a) }
-pub open spec fn sv_in_limits(a: SV) -> bool {
-    in_SpanYears(a.y) && in_SpanMonths(a.mo) && in_SpanWeeks(a.w) && in_SpanDays(a.d) && in_SpanHours(a.h) && in_SpanMinutes(a.mi)
-    && in_SpanSeconds(a.s) && in_SpanMilliseconds(a.ms) && in_SpanMicroseconds(a.us) && in_SpanNanoseconds(a.ns)
-}
-pub open spec fn in_limit(j: int, v: int) -> bool {
-    if j == 9 { in_SpanYears(v) } else if j == 8 { in_SpanMonths(v) } else if j == 7 { in_SpanWeeks(v) } else if j == 6 { in_SpanDays(v) }
-    else if j == 5 { in_SpanHours(v) } else if j == 4 { in_SpanMinutes(v) } else if j == 3 { in_SpanSeconds(v) } else if j == 2 { in_SpanMilliseconds(v) }
-    else if j == 1 { in_SpanMicroseconds(v) } else { in_SpanNanoseconds(v) }
-}
-/// jiff's rule for `span.<unit>(v)` (span.vrs): the unit's magnitude becomes |v|, the others are kept; a negative v makes the span negative, otherwise an
-/// all-zero span is zero, otherwise a span that was zero becomes positive, otherwise the sign is kept
-pub open spec fn spec_set(a: SV, j: int, v: int) -> SV {
-    let m = sv_put(sv_abs(a), j, iabs(v));
-    let sg = if v < 0 { -1 } else if sv_is_zero(m) { 0 } else if sv_is_zero(a) { 1 } else { sv_sign(a) };
-    sv_signed(sg, m)
-}
-pub open spec fn sv_ok(a: SV) -> bool { sv_one_sign(a) && sv_in_limits(a) }
-/// units of rank < lo zeroed (Span::without_lower) / units of rank >= lo zeroed (Span::only_lower)
-pub open spec fn sv_from(a: SV, lo: int) -> SV {
-    SV { y: if 9 < lo { 0 } else { a.y }, mo: if 8 < lo { 0 } else { a.mo }, w: if 7 < lo { 0 } else { a.w }, d: if 6 < lo { 0 } else { a.d }, h: if 5 < lo { 0 } else { a.h },
-         mi: if 4 < lo { 0 } else { a.mi }, s: if 3 < lo { 0 } else { a.s }, ms: if 2 < lo { 0 } else { a.ms }, us: if 1 < lo { 0 } else { a.us }, ns: if 0 < lo { 0 } else { a.ns } }
-}
-pub open spec fn sv_below(a: SV, lo: int) -> SV {
-    SV { y: if 9 >= lo { 0 } else { a.y }, mo: if 8 >= lo { 0 } else { a.mo }, w: if 7 >= lo { 0 } else { a.w }, d: if 6 >= lo { 0 } else { a.d }, h: if 5 >= lo { 0 } else { a.h },
-         mi: if 4 >= lo { 0 } else { a.mi }, s: if 3 >= lo { 0 } else { a.s }, ms: if 2 >= lo { 0 } else { a.ms }, us: if 1 >= lo { 0 } else { a.us }, ns: if 0 >= lo { 0 } else { a.ns } }
-}
-/// the largest unit with a non-zero value (rank), 0 for the zero span
-pub open spec fn sv_top(a: SV) -> int {
-    if a.y != 0 { 9 } else if a.mo != 0 { 8 } else if a.w != 0 { 7 } else if a.d != 0 { 6 } else if a.h != 0 { 5 } else if a.mi != 0 { 4 }
-    else if a.s != 0 { 3 } else if a.ms != 0 { 2 } else if a.us != 0 { 1 } else { 0 }
-}
-
-// ---- C11 specification: spans of uniform units as exact nanosecond counts -------------------------------------------------------
-/// hours..nanoseconds in nanoseconds
-pub open spec fn time_ns(a: SV) -> int {
-    a.h * 3_600_000_000_000 + a.mi * 60_000_000_000 + a.s * 1_000_000_000 + a.ms * 1_000_000 + a.us * 1_000 + a.ns
-}
-/// the duration denoted by the uniform units: weeks = 7 x 24 h, days = 24 h; years and months do not count
-pub open spec fn inv_ns(a: SV) -> int { a.w * 604_800_000_000_000 + a.d * 86_400_000_000_000 + time_ns(a) }
-/// nanoseconds in one unit of rank j (== unit_ns of that unit), ranks 0..=7
-pub open spec fn rank_ns(j: int) -> int {
-    if j == 0 { 1 } else if j == 1 { 1_000 } else if j == 2 { 1_000_000 } else if j == 3 { 1_000_000_000 } else if j == 4 { 60_000_000_000 }
-    else if j == 5 { 3_600_000_000_000 } else if j == 6 { 86_400_000_000_000 } else if j == 7 { 604_800_000_000_000 } else { 0 }
-}
-/// how many units of rank j make one unit of rank j + 1
-pub open spec fn carry(j: int) -> int { if j <= 2 { 1_000 } else if j <= 4 { 60 } else if j == 5 { 24 } else { 7 } }
-/// the largest unit Span::from_invariant_nanoseconds fills for `largest`: Year and Month are treated as Day
-pub open spec fn top_rank(largest: Unit) -> int { if unit_rank(largest) >= 8 { 6 } else { unit_rank(largest) } }
-/// n nanoseconds counted in whole units of rank j, truncated toward zero
-pub open spec fn quot(n: int, j: int) -> int { tdiv(n, rank_ns(j)) }
-/// n nanoseconds balanced up to the unit of rank `top`: the top unit takes the whole count, every lower unit the remainder below its carry limit
-pub open spec fn bal_unit(n: int, top: int, j: int) -> int {
-    if j > top { 0 } else if j == top { quot(n, j) } else { trem(quot(n, j), carry(j)) }
-}
-pub open spec fn bal(n: int, top: int) -> SV {
-    SV { y: 0, mo: 0, w: bal_unit(n, top, 7), d: bal_unit(n, top, 6), h: bal_unit(n, top, 5), mi: bal_unit(n, top, 4), s: bal_unit(n, top, 3),
-         ms: bal_unit(n, top, 2), us: bal_unit(n, top, 1), ns: bal_unit(n, top, 0) }
-}
-/// every unit below `top` is below its carry limit
-pub open spec fn carried(a: SV, top: int) -> bool {
-    &&& (0 < top ==> -1_000 < a.ns < 1_000) && (1 < top ==> -1_000 < a.us < 1_000) && (2 < top ==> -1_000 < a.ms < 1_000)
-    &&& (3 < top ==> -60 < a.s < 60) && (4 < top ==> -60 < a.mi < 60) && (5 < top ==> -24 < a.h < 24) && (6 < top ==> -7 < a.d < 7)
-}
-/// "a exactly denotes n nanoseconds, balanced up to the unit of rank top": conservation, no unit above top, carry limits, one sign (that of n)
-pub open spec fn balanced_as(a: SV, n: int, top: int) -> bool {
-    &&& inv_ns(a) == n
-    &&& a.y == 0 && a.mo == 0 && sv_top(a) <= top
-    &&& carried(a, top)
-    &&& (n >= 0 ==> sv_nonneg(a)) && (n <= 0 ==> sv_nonpos(a))
-}
-/// *the* multiple of inc that `mode` prescribes for q (unique: lemma_round_unique)
-pub open spec fn rnd(mode: RoundMode, q: int, inc: int) -> int { choose|x: int| round_ok(mode, q, inc, x) }
-
-pub proof fn lemma_rnd(mode: RoundMode, q: int, inc: int, x: int)
-    requires inc > 0, round_ok(mode, q, inc, x),
-    ensures rnd(mode, q, inc) == x, round_ok(mode, q, inc, rnd(mode, q, inc)),
-{
-    lemma_round_unique(mode, q, inc, rnd(mode, q, inc), x);
-}
-/// rounding never changes the sign
-#[verifier::spinoff_prover]
-pub proof fn lemma_round_sign(mode: RoundMode, q: int, inc: int, x: int)
-    requires inc > 0, round_ok(mode, q, inc, x),
-    ensures q >= 0 ==> x >= 0, q <= 0 ==> x <= 0, q - inc < x < q + inc, x % inc == 0,
-{
-    let k = x / inc;
-    vstd::arithmetic::div_mod::lemma_fundamental_div_mod(x, inc);
-    assert(x == inc * k);
-    if q >= 0 { assert(k >= 0) by (nonlinear_arith) requires x == inc * k, x > -inc, inc > 0; assert(x >= 0) by (nonlinear_arith) requires x == inc * k, k >= 0, inc > 0; }
-    if q <= 0 { assert(k <= 0) by (nonlinear_arith) requires x == inc * k, x < inc, inc > 0; assert(x <= 0) by (nonlinear_arith) requires x == inc * k, k <= 0, inc > 0; }
-}
-/// what `span.<unit>(v)` stores in that unit: v, except that a positive v put on a negative span is taken as a magnitude
-pub open spec fn set_val(a: SV, v: int) -> int { if v > 0 && !sv_nonneg(a) { -v } else { v } }
-/// unless a negative value is put on a positive span (which flips the other units), a setter replaces its unit and nothing else
-pub proof fn lemma_set(a: SV, j: int, v: int)
-    requires 0 <= j <= 9, sv_one_sign(a), v < 0 ==> sv_nonpos(a),
-    ensures spec_set(a, j, v) == sv_put(a, j, set_val(a, v)),
-{
-}
-pub proof fn lemma_set_all()
-    ensures forall|a: SV, j: int, v: int| 0 <= j <= 9 && sv_one_sign(a) && (v < 0 ==> sv_nonpos(a)) ==> #[trigger] spec_set(a, j, v) == sv_put(a, j, set_val(a, v)),
-{
-    assert forall|a: SV, j: int, v: int| 0 <= j <= 9 && sv_one_sign(a) && (v < 0 ==> sv_nonpos(a)) implies #[trigger] spec_set(a, j, v) == sv_put(a, j, set_val(a, v)) by { lemma_set(a, j, v); }
-}
-/// one step of the chain of truncating divisions: tdiv(tdiv(n, a), b) == tdiv(n, a * b)
-pub proof fn lemma_tdiv_step(n: int, a: int, b: int)
-    requires a > 0, b > 0,
-    ensures tdiv(tdiv(n, a), b) == tdiv(n, a * b), a * b > 0,
-{
-    assert(a * b > 0) by (nonlinear_arith) requires a > 0, b > 0;
-    if n >= 0 {
-        vstd::arithmetic::div_mod::lemma_div_denominator(n, a, b);
-        vstd::arithmetic::div_mod::lemma_div_pos_is_pos(n, a);
-    } else {
-        vstd::arithmetic::div_mod::lemma_div_denominator(-n, a, b);
-        vstd::arithmetic::div_mod::lemma_div_pos_is_pos(-n, a);
+// ---- C10 / C09, from the statements ----
+/// the original offset is still valid for civil time `dt` in `tz`
+pub open spec fn offset_valid(tz: TimeZone, dt: DateTime, given: Offset) -> bool {
+    match tz_amb(tz, dt) {
+        AmbiguousOffset::Unambiguous { offset } => given == offset,
+        AmbiguousOffset::Fold { before, after } => given == before || given == after,
+        AmbiguousOffset::Gap { before, after } => false,
     }
 }
-/// the quotients Span::from_invariant_nanoseconds computes one after the other are the direct quotients
-#[verifier::spinoff_prover]
-pub proof fn lemma_quot_chain(n: int)
-    ensures quot(n, 0) == n, quot(n, 1) == tdiv(n, 1_000), quot(n, 2) == tdiv(quot(n, 1), 1_000), quot(n, 3) == tdiv(quot(n, 2), 1_000), quot(n, 4) == tdiv(quot(n, 3), 60),
-            quot(n, 5) == tdiv(quot(n, 4), 60), quot(n, 6) == tdiv(quot(n, 5), 24), quot(n, 7) == tdiv(quot(n, 6), 7),
-{
-    lemma_tdiv_step(n, 1_000, 1_000); lemma_tdiv_step(n, 1_000_000, 1_000); lemma_tdiv_step(n, 1_000_000_000, 60); lemma_tdiv_step(n, 60_000_000_000, 60);
-    lemma_tdiv_step(n, 3_600_000_000_000, 24); lemma_tdiv_step(n, 86_400_000_000_000, 7);
-}
-/// every step of the chain: remainders below the carry limit, everything of n's sign
-pub open spec fn chain_facts(n: int) -> bool {
-    &&& forall|j: int| 0 <= j <= 6 ==> -carry(j) < #[trigger] trem(quot(n, j), carry(j)) < carry(j)
-    &&& (n >= 0 ==> forall|j: int| 0 <= j <= 7 ==> #[trigger] quot(n, j) >= 0)
-    &&& (n <= 0 ==> forall|j: int| 0 <= j <= 7 ==> #[trigger] quot(n, j) <= 0)
-    &&& (n >= 0 ==> forall|j: int| 0 <= j <= 6 ==> #[trigger] trem(quot(n, j), carry(j)) >= 0)
-    &&& (n <= 0 ==> forall|j: int| 0 <= j <= 6 ==> #[trigger] trem(quot(n, j), carry(j)) <= 0)
-}
-#[verifier::spinoff_prover]
-pub proof fn lemma_chain(n: int)
-    ensures chain_facts(n),
-            quot(n, 0) == n, quot(n, 1) == tdiv(n, 1_000), quot(n, 2) == tdiv(quot(n, 1), 1_000), quot(n, 3) == tdiv(quot(n, 2), 1_000), quot(n, 4) == tdiv(quot(n, 3), 60),
-            quot(n, 5) == tdiv(quot(n, 4), 60), quot(n, 6) == tdiv(quot(n, 5), 24), quot(n, 7) == tdiv(quot(n, 6), 7),
-{
-    lemma_quot_chain(n);
-    lemma_tdiv(n, 1_000); lemma_tdiv(quot(n, 1), 1_000); lemma_tdiv(quot(n, 2), 1_000); lemma_tdiv(quot(n, 3), 60); lemma_tdiv(quot(n, 4), 60); lemma_tdiv(quot(n, 5), 24); lemma_tdiv(quot(n, 6), 7);
-    assert forall|j: int| 0 <= j <= 6 implies -carry(j) < #[trigger] trem(quot(n, j), carry(j)) < carry(j) by {
-        if j == 0 {} else if j == 1 {} else if j == 2 {} else if j == 3 {} else if j == 4 {} else if j == 5 {} else {}
-    }
-}
-/// the balanced form denotes n: conservation, carry limits, one sign
-#[verifier::spinoff_prover]
-pub proof fn lemma_bal(n: int, top: int)
-    requires 0 <= top <= 7,
-    ensures balanced_as(bal(n, top), n, top), sv_one_sign(bal(n, top)),
-{
-    lemma_quot_chain(n);
-    lemma_tdiv(n, 1_000); lemma_tdiv(quot(n, 1), 1_000); lemma_tdiv(quot(n, 2), 1_000); lemma_tdiv(quot(n, 3), 60); lemma_tdiv(quot(n, 4), 60); lemma_tdiv(quot(n, 5), 24); lemma_tdiv(quot(n, 6), 7);
-}
-/// the uniform units of a well-formed span denote less than 2^83 ns
-#[verifier::spinoff_prover]
-pub proof fn lemma_inv_bound(a: SV)
-    requires sv_ok(a),
-    ensures -0x8_0000_0000_0000_0000_0000 <= inv_ns(a) <= 0x8_0000_0000_0000_0000_0000, -0x8_0000_0000_0000_0000_0000 <= time_ns(a) <= 0x8_0000_0000_0000_0000_0000,
-            sv_nonneg(a) ==> inv_ns(a) >= 0 && time_ns(a) >= 0, sv_nonpos(a) ==> inv_ns(a) <= 0 && time_ns(a) <= 0,
-            time_ns(sv_below(a, 6)) == time_ns(a), inv_ns(sv_below(a, 6)) == time_ns(a),
-{
-}
-
-// ---- Span: opaque, view = ten signed integers.  Contracts of span.vrs (C12), where `wf(s)` implies sv_ok(view(s)) (lemma_view) -----------------
-#[verifier::external_body]
-#[derive(Clone, Copy)]
-pub struct Span { _p: () }
-pub uninterp spec fn span_view(s: Span) -> SV;
-/// type invariant of Span as far as this unit needs it: one sign, every unit within its documented limit
-pub open spec fn span_wf(s: Span) -> bool { sv_ok(span_view(s)) }
-impl Span {
-    #[verifier::external_body]
-    pub fn new() -> (r: Span) ensures span_wf(r), span_view(r) == sv_zero() { unimplemented!() }
-    #[verifier::external_body]
-    pub fn get_sign_ranged(&self) -> (r: Sign) requires span_wf(*self) ensures r.val == sv_sign(span_view(*self)) { unimplemented!() }
-    #[verifier::external_body]
-    pub fn get_years_ranged(&self) -> (r: SpanYears) requires span_wf(*self) ensures r.val == span_view(*self).y { unimplemented!() }
-    #[verifier::external_body]
-    pub fn get_months_ranged(&self) -> (r: SpanMonths) requires span_wf(*self) ensures r.val == span_view(*self).mo { unimplemented!() }
-    #[verifier::external_body]
-    pub fn get_weeks_ranged(&self) -> (r: SpanWeeks) requires span_wf(*self) ensures r.val == span_view(*self).w { unimplemented!() }
-    #[verifier::external_body]
-    pub fn get_days_ranged(&self) -> (r: SpanDays) requires span_wf(*self) ensures r.val == span_view(*self).d { unimplemented!() }
-    #[verifier::external_body]
-    pub fn get_hours_ranged(&self) -> (r: SpanHours) requires span_wf(*self) ensures r.val == span_view(*self).h { unimplemented!() }
-    #[verifier::external_body]
-    pub fn get_minutes_ranged(&self) -> (r: SpanMinutes) requires span_wf(*self) ensures r.val == span_view(*self).mi { unimplemented!() }
-    #[verifier::external_body]
-    pub fn get_seconds_ranged(&self) -> (r: SpanSeconds) requires span_wf(*self) ensures r.val == span_view(*self).s { unimplemented!() }
-    #[verifier::external_body]
-    pub fn get_milliseconds_ranged(&self) -> (r: SpanMilliseconds) requires span_wf(*self) ensures r.val == span_view(*self).ms { unimplemented!() }
-    #[verifier::external_body]
-    pub fn get_microseconds_ranged(&self) -> (r: SpanMicroseconds) requires span_wf(*self) ensures r.val == span_view(*self).us { unimplemented!() }
-    #[verifier::external_body]
-    pub fn get_nanoseconds_ranged(&self) -> (r: SpanNanoseconds) requires span_wf(*self) ensures r.val == span_view(*self).ns { unimplemented!() }
-    // infallible setters: the argument's alias is the unit's limit
-    #[verifier::external_body]
-    pub fn years_ranged(self, years: SpanYears) -> (r: Span) requires span_wf(self), in_SpanYears(years.val as int)
-        ensures span_wf(r), span_view(r) == spec_set(span_view(self), 9, years.val as int) { unimplemented!() }
-    #[verifier::external_body]
-    pub fn months_ranged(self, months: SpanMonths) -> (r: Span) requires span_wf(self), in_SpanMonths(months.val as int)
-        ensures span_wf(r), span_view(r) == spec_set(span_view(self), 8, months.val as int) { unimplemented!() }
-    #[verifier::external_body]
-    pub fn weeks_ranged(self, weeks: SpanWeeks) -> (r: Span) requires span_wf(self), in_SpanWeeks(weeks.val as int)
-        ensures span_wf(r), span_view(r) == spec_set(span_view(self), 7, weeks.val as int) { unimplemented!() }
-    #[verifier::external_body]
-    pub fn days_ranged(self, days: SpanDays) -> (r: Span) requires span_wf(self), in_SpanDays(days.val as int)
-        ensures span_wf(r), span_view(r) == spec_set(span_view(self), 6, days.val as int) { unimplemented!() }
-    // fallible setters taking any ranged integer
-    #[verifier::external_body]
-    pub fn try_days_ranged(self, days: impl TryRInto_SpanDays) -> (r: Result<Span, Error>) requires span_wf(self)
-        ensures r.is_ok() <==> in_SpanDays(days.try_rinto_val()), r.is_ok() ==> span_wf(r.unwrap()) && span_view(r.unwrap()) == spec_set(span_view(self), 6, days.try_rinto_val()) { unimplemented!() }
-    #[verifier::external_body]
-    pub fn try_hours_ranged(self, hours: impl TryRInto_SpanHours) -> (r: Result<Span, Error>) requires span_wf(self)
-        ensures r.is_ok() <==> in_SpanHours(hours.try_rinto_val()), r.is_ok() ==> span_wf(r.unwrap()) && span_view(r.unwrap()) == spec_set(span_view(self), 5, hours.try_rinto_val()) { unimplemented!() }
-    #[verifier::external_body]
-    pub fn try_minutes_ranged(self, minutes: impl TryRInto_SpanMinutes) -> (r: Result<Span, Error>) requires span_wf(self)
-        ensures r.is_ok() <==> in_SpanMinutes(minutes.try_rinto_val()), r.is_ok() ==> span_wf(r.unwrap()) && span_view(r.unwrap()) == spec_set(span_view(self), 4, minutes.try_rinto_val()) { unimplemented!() }
-    #[verifier::external_body]
-    pub fn try_seconds_ranged(self, seconds: impl TryRInto_SpanSeconds) -> (r: Result<Span, Error>) requires span_wf(self)
-        ensures r.is_ok() <==> in_SpanSeconds(seconds.try_rinto_val()), r.is_ok() ==> span_wf(r.unwrap()) && span_view(r.unwrap()) == spec_set(span_view(self), 3, seconds.try_rinto_val()) { unimplemented!() }
-    #[verifier::external_body]
-    pub fn try_milliseconds_ranged(self, milliseconds: impl TryRInto_SpanMilliseconds) -> (r: Result<Span, Error>) requires span_wf(self)
-        ensures r.is_ok() <==> in_SpanMilliseconds(milliseconds.try_rinto_val()), r.is_ok() ==> span_wf(r.unwrap()) && span_view(r.unwrap()) == spec_set(span_view(self), 2, milliseconds.try_rinto_val()) { unimplemented!() }
-    #[verifier::external_body]
-    pub fn try_microseconds_ranged(self, microseconds: impl TryRInto_SpanMicroseconds) -> (r: Result<Span, Error>) requires span_wf(self)
-        ensures r.is_ok() <==> in_SpanMicroseconds(microseconds.try_rinto_val()), r.is_ok() ==> span_wf(r.unwrap()) && span_view(r.unwrap()) == spec_set(span_view(self), 1, microseconds.try_rinto_val()) { unimplemented!() }
-    #[verifier::external_body]
-    pub fn try_nanoseconds_ranged(self, nanoseconds: impl TryRInto_SpanNanoseconds) -> (r: Result<Span, Error>) requires span_wf(self)
-        ensures r.is_ok() <==> in_SpanNanoseconds(nanoseconds.try_rinto_val()), r.is_ok() ==> span_wf(r.unwrap()) && span_view(r.unwrap()) == spec_set(span_view(self), 0, nanoseconds.try_rinto_val()) { unimplemented!() }
-    /// `try_seconds<I: Into<i64>>`: the conversion to i64 happens first (model S1: no truncation allowed), then span.vrs's contract for the i64
-    #[verifier::external_body]
-    pub fn try_seconds<I: VerifIntoI64>(self, seconds: I) -> (r: Result<Span, Error>) requires span_wf(self), seconds.into_i64_req()
-        ensures r.is_ok() <==> in_SpanSeconds(seconds.into_i64_spec() as int), r.is_ok() ==> span_wf(r.unwrap()) && span_view(r.unwrap()) == spec_set(span_view(self), 3, seconds.into_i64_spec() as int) { unimplemented!() }
-    /// units `unit` and above zeroed / units below `unit` zeroed (contracts stated for Unit::Day, the only use here)
-    #[verifier::external_body]
-    pub fn only_lower(&self, unit: Unit) -> (r: Span) requires span_wf(*self), unit == Unit::Day
-        ensures span_wf(r), span_view(r) == sv_below(span_view(*self), 6) { unimplemented!() }
-    #[verifier::external_body]
-    pub fn without_lower(&self, unit: Unit) -> (r: Span) requires span_wf(*self), unit == Unit::Day
-        ensures span_wf(r), span_view(r) == sv_from(span_view(*self), 6) { unimplemented!() }
-}
-
-// ---- RoundMode::round_by_unit_in_nanoseconds: contract proved in rounders.vrs (C10) -------------------------------------------------
-impl RoundMode {
-    #[verifier::external_body]
-    pub fn round_by_unit_in_nanoseconds(self, quantity: impl RInto<NoUnits128>, unit: Unit, increment: impl RInto<NoUnits128>) -> (res: NoUnits128)
-        requires quantity.rinto_req(), increment.rinto_req(), unit_rank(unit) <= 7,
-                 0 < unit_ns(unit) * increment.rinto_spec().val <= 0x7fff_ffff_ffff_ffff,
-                 -0x4000_0000_0000_0000_0000_0000 <= quantity.rinto_spec().val <= 0x4000_0000_0000_0000_0000_0000,
-        ensures round_ok(self, quantity.rinto_spec().val as int, unit_ns(unit) * increment.rinto_spec().val, res.val as int)
-    { unimplemented!() }
-}
-
-// ---- the reference datetime: opaque.  `Relative::checked_add` (C06/C08) and `to_nanosecond` are uninterpreted: all this unit says about them is
-//      that they are functions of (reference, span value) and that an instant is a Timestamp's nanosecond count ------------------------------
-#[verifier::external_body]
-pub struct RelativeZoned<'a> { _p: core::marker::PhantomData<&'a ()> }
-#[verifier::external_body]
-pub struct RelativeCivil { _p: () }
-pub enum Relative<'a> { Civil(RelativeCivil), Zoned(RelativeZoned<'a>) }
-impl<'a> Clone for RelativeZoned<'a> {
-    #[verifier::external_body]
-    fn clone(&self) -> (r: Self) ensures r == *self { unimplemented!() }
-}
-/// `reference + s` is representable
-pub uninterp spec fn rel_add_ok(rel: Relative, s: SV) -> bool;
-/// the instant `reference + s` in nanoseconds since the Unix epoch
-pub uninterp spec fn rel_add_ns(rel: Relative, s: SV) -> int;
-/// clamp_relative_span (src/span.rs:6651): NOT under contract.  Opaque: Ok iff `span[unit] + amount` is within the unit's limit and both additions succeed;
-/// the results are the instants `reference + span` and `reference + span with unit := span[unit] + amount` (instants are Timestamp nanoseconds)
-pub open spec fn clamp_ok(rel: Relative, s: SV, j: int, amount: int) -> bool {
-    in_limit(j, sv_get(s, j) + amount) && rel_add_ok(rel, s) && rel_add_ok(rel, spec_set(s, j, sv_get(s, j) + amount))
-}
-#[verifier::external_body]
-pub fn clamp_relative_span(relative: &Relative, span: Span, unit: Unit, amount: NoUnits) -> (r: Result<(NoUnits128, NoUnits128), Error>)
-    requires span_wf(span),
-    ensures r.is_ok() <==> clamp_ok(*relative, span_view(span), unit_rank(unit), amount.val as int),
-            r.is_ok() ==> r.unwrap().0.val == rel_add_ns(*relative, span_view(span))
-                       && r.unwrap().1.val == rel_add_ns(*relative, spec_set(span_view(span), unit_rank(unit), sv_get(span_view(span), unit_rank(unit)) + amount.val))
-                       && in_UnixNanoseconds(r.unwrap().0.val as int) && in_UnixNanoseconds(r.unwrap().1.val as int),
-{ unimplemented!() }
-// ---- names used by the contracts of the two nudges ------------------------------------------------------------------------
-/// the rounding increment in nanoseconds
-pub open spec fn inc_ns(smallest: Unit, increment: NoUnits128) -> int { unit_ns(smallest) * increment.val }
-/// Nudge::relative_invariant: the rounded count of nanoseconds
-pub open spec fn ri_rnd(balanced: Span, smallest: Unit, increment: NoUnits128, mode: RoundMode) -> int { rnd(mode, inv_ns(span_view(balanced)), inc_ns(smallest, increment)) }
-/// Nudge::relative_zoned_time.  cal = years..days of `balanced`; cal1 = the same with one more day in the span's direction;
-/// r0, r1 = the instants reference + cal, reference + cal1 (so r1 - r0 is the real length of that day, negative for a negative span)
-pub open spec fn zt_rel(rs: RelativeZoned) -> Relative { Relative::Zoned(rs) }
-pub open spec fn zt_sg(b: Span) -> int { sv_sign(span_view(b)) }
-pub open spec fn zt_cal(b: Span) -> SV { sv_from(span_view(b), 6) }
-pub open spec fn zt_cal1(b: Span) -> SV { spec_set(zt_cal(b), 6, span_view(b).d + zt_sg(b)) }
-pub open spec fn zt_ok(rs: RelativeZoned, b: Span) -> bool { clamp_ok(zt_rel(rs), zt_cal(b), 6, zt_sg(b)) }
-pub open spec fn zt_r0(rs: RelativeZoned, b: Span) -> int { rel_add_ns(zt_rel(rs), zt_cal(b)) }
-pub open spec fn zt_r1(rs: RelativeZoned, b: Span) -> int { rel_add_ns(zt_rel(rs), zt_cal1(b)) }
-/// the sub-day part of `balanced`, rounded
-pub open spec fn zt_x1(b: Span, i: int, mode: RoundMode) -> int { rnd(mode, time_ns(span_view(b)), i) }
-/// by how much the rounded sub-day part exceeds the real length of the day
-pub open spec fn zt_beyond(rs: RelativeZoned, b: Span, i: int, mode: RoundMode) -> int { zt_x1(b, i, mode) - (zt_r1(rs, b) - zt_r0(rs, b)) }
-/// rounding reached (or passed) the end of the day: one day is added to the span
-pub open spec fn zt_grow(rs: RelativeZoned, b: Span, i: int, mode: RoundMode) -> bool { zt_beyond(rs, b, i, mode) == 0 || isgn(zt_beyond(rs, b, i, mode)) == zt_sg(b) }
-/// the sub-day part of the result
-pub open spec fn zt_fin(rs: RelativeZoned, b: Span, i: int, mode: RoundMode) -> int {
-    if zt_grow(rs, b, i, mode) { rnd(mode, zt_beyond(rs, b, i, mode), i) } else { zt_x1(b, i, mode) }
+/// "re-resolves it in the zone, keeping the original offset whenever that offset is still valid"
+pub open spec fn reresolve(tz: TimeZone, dt: DateTime, given: Offset) -> Option<Timestamp> {
+    if offset_valid(tz, dt, given) { off_to_ts(given, dt) } else { off_to_ts(pick_compatible(tz_amb(tz, dt)), dt) }
 }
 
 // ==== extracted from /repo ====
+#[derive(Clone, Copy, Debug)]
 
-#[derive(Clone, Copy, Debug, Eq, PartialEq, Structural)]
-pub enum RoundMode {
-    
-    
-    
-    
-    
-    Ceil,
-    
-    
-    
-    
-    
-    Floor,
-    
-    
-    Expand,
-    
-    
-    
-    
-    
-    Trunc,
-    
-    
-    HalfCeil,
-    
-    
-    HalfFloor,
+pub enum OffsetConflict {
     
     
     
@@ -6748,426 +6432,276 @@ pub enum RoundMode {
     
     
     
-    HalfExpand,
-    
-    
-    HalfTrunc,
     
     
     
     
     
-    HalfEven,
+    AlwaysOffset,
+    
+    
+    
+    
+    
+    
+    
+    
+    
+    
+    
+    
+    
+    
+    AlwaysTimeZone,
+    
+    
+    
+    
+    
+    
+    
+    PreferOffset,
+    
+    
+    
+    
+    
+    
+    Reject,
 }
 
-#[derive(Clone, Copy, Debug, Eq, PartialEq, Structural)]
-pub enum Unit {
-    
-    
-    Year = 9,
-    
-    
-    Month = 8,
-    
-    Week = 7,
-    
-    
-    Day = 6,
-    
-    Hour = 5,
-    
-    
-    Minute = 4,
-    
-    Second = 3,
-    
-    Millisecond = 2,
-    
-    Microsecond = 1,
-    
-    Nanosecond = 0,
-}
-
-impl Span {
-// @fn Span::to_invariant_nanoseconds @src src/span.rs:2900
+impl OffsetConflict {
+// @fn OffsetConflict::resolve @src src/tz/offset.rs:1828
 #[verifier::spinoff_prover]
-
-    pub fn to_invariant_nanoseconds(&self) -> (r: NoUnits128)
-    requires
-        span_wf(*self),
+pub fn resolve(
+        self,
+        dt: DateTime,
+        offset: Offset,
+        tz: TimeZone,
+    ) -> (r: Result<AmbiguousZoned, Error>)
     ensures
-        r.val == inv_ns(span_view(*self)),
+        self == OffsetConflict::PreferOffset ==> r.is_ok() && r.unwrap().tz == tz && r.unwrap().ts.dt == dt
+        && off_to_ts(pick_compatible(r.unwrap().ts.offset), dt) == reresolve(tz, dt, offset),
+    self == OffsetConflict::Reject ==> (r.is_ok() <==> offset_valid(tz, dt, offset)),
 {
-        let mut nanos = NoUnits128::rfrom(self.get_nanoseconds_ranged());
-        nanos += NoUnits128::rfrom(self.get_microseconds_ranged())
-            * NANOS_PER_MICRO;
-        nanos += NoUnits128::rfrom(self.get_milliseconds_ranged())
-            * NANOS_PER_MILLI;
-        nanos +=
-            NoUnits128::rfrom(self.get_seconds_ranged()) * NANOS_PER_SECOND;
-        nanos +=
-            NoUnits128::rfrom(self.get_minutes_ranged()) * NANOS_PER_MINUTE;
-        nanos +=
-            NoUnits128::rfrom(self.get_hours_ranged()) * NANOS_PER_HOUR;
-        nanos +=
-            NoUnits128::rfrom(self.get_days_ranged()) * NANOS_PER_CIVIL_DAY;
-        nanos += NoUnits128::rfrom(self.get_weeks_ranged())
-            * NANOS_PER_CIVIL_WEEK;
-        nanos
+        self.resolve_with(dt, offset, tz, |off1: Offset, off2: Offset| -> (r: bool) ensures r == (off1 == off2) { off1 == off2 })
     }
 }
 
-impl Span {
-// @fn Span::from_invariant_nanoseconds @src src/span.rs:2742
+impl OffsetConflict {
+// @fn OffsetConflict::resolve_with @src src/tz/offset.rs:1943
 #[verifier::spinoff_prover]
-pub fn from_invariant_nanoseconds(
-        largest: Unit,
-        nanos: NoUnits128,
-    ) -> (r: Result<Span, Error>)
+pub fn resolve_with<F>(
+        self,
+        dt: DateTime,
+        offset: Offset,
+        tz: TimeZone,
+        is_equal: F,
+    ) -> (r: Result<AmbiguousZoned, Error>)
+    where
+        F: Fn(Offset, Offset) -> bool,
+    requires
+        forall|a: Offset, b: Offset, x: bool| is_equal.ensures((a, b), x) ==> x == (a == b), forall|a: Offset, b: Offset| is_equal.requires((a, b)),
     ensures
-        r.is_ok() <==> in_limit(top_rank(largest), quot(nanos.val as int, top_rank(largest))),
-    r.is_ok() ==> span_wf(r.unwrap()) && span_view(r.unwrap()) == bal(nanos.val as int, top_rank(largest)),
-    r.is_ok() ==> balanced_as(span_view(r.unwrap()), nanos.val as int, top_rank(largest)),
+        self == OffsetConflict::PreferOffset ==> r.is_ok() && r.unwrap().tz == tz && r.unwrap().ts.dt == dt
+        && off_to_ts(pick_compatible(r.unwrap().ts.offset), dt) == reresolve(tz, dt, offset),
+    self == OffsetConflict::AlwaysOffset ==> r.is_ok() && r.unwrap().ts.offset == (AmbiguousOffset::Unambiguous { offset }),
+    self == OffsetConflict::AlwaysTimeZone ==> r.is_ok() && r.unwrap().ts.offset == tz_amb(tz, dt),
+    self == OffsetConflict::Reject ==> (r.is_ok() <==> offset_valid(tz, dt, offset)),
 {
-        hide(spec_set); hide(tdiv); hide(trem); hide(quot);
-        proof { lemma_chain(nanos.val as int); lemma_bal(nanos.val as int, top_rank(largest)); lemma_set_all(); }
-
-        let mut span = Span::new();
-        match largest {
-            Unit::Week => {
-                let micros = nanos.div_ceil(NANOS_PER_MICRO);
-                span = span.try_nanoseconds_ranged(
-                    nanos.rem_ceil(NANOS_PER_MICRO),
-                )?;
-                let millis = micros.div_ceil(MICROS_PER_MILLI);
-                span = span.try_microseconds_ranged(
-                    micros.rem_ceil(MICROS_PER_MILLI),
-                )?;
-                let secs = millis.div_ceil(MILLIS_PER_SECOND);
-                span = span.try_milliseconds_ranged(
-                    millis.rem_ceil(MILLIS_PER_SECOND),
-                )?;
-                let mins = secs.div_ceil(SECONDS_PER_MINUTE);
-                span = span.try_seconds_ranged(
-                    secs.rem_ceil(SECONDS_PER_MINUTE),
-                )?;
-                let hours = mins.div_ceil(MINUTES_PER_HOUR);
-                span = span
-                    .try_minutes_ranged(mins.rem_ceil(MINUTES_PER_HOUR))?;
-                let days = hours.div_ceil(HOURS_PER_CIVIL_DAY);
-                span = span.try_hours_ranged(
-                    hours.rem_ceil(HOURS_PER_CIVIL_DAY),
-                )?;
-                let weeks = days.div_ceil(DAYS_PER_CIVIL_WEEK);
-                span = span
-                    .try_days_ranged(days.rem_ceil(DAYS_PER_CIVIL_WEEK))?;
-                span = span.weeks_ranged(verif_try_rfrom_SpanWeeks_128(weeks)?);
-                Ok(span)
+        match self {
+            
+            
+            OffsetConflict::AlwaysOffset => {
+                let kind = AmbiguousOffset::Unambiguous { offset };
+                Ok(AmbiguousTimestamp::new(dt, kind).into_ambiguous_zoned(tz))
             }
-            Unit::Year | Unit::Month | Unit::Day => {
-                
-                let micros = nanos.div_ceil(NANOS_PER_MICRO);
-                span = span.try_nanoseconds_ranged(
-                    nanos.rem_ceil(NANOS_PER_MICRO),
-                )?;
-                let millis = micros.div_ceil(MICROS_PER_MILLI);
-                span = span.try_microseconds_ranged(
-                    micros.rem_ceil(MICROS_PER_MILLI),
-                )?;
-                let secs = millis.div_ceil(MILLIS_PER_SECOND);
-                span = span.try_milliseconds_ranged(
-                    millis.rem_ceil(MILLIS_PER_SECOND),
-                )?;
-                let mins = secs.div_ceil(SECONDS_PER_MINUTE);
-                span = span.try_seconds_ranged(
-                    secs.rem_ceil(SECONDS_PER_MINUTE),
-                )?;
-                let hours = mins.div_ceil(MINUTES_PER_HOUR);
-                span = span
-                    .try_minutes_ranged(mins.rem_ceil(MINUTES_PER_HOUR))?;
-                let days = hours.div_ceil(HOURS_PER_CIVIL_DAY);
-                span = span.try_hours_ranged(
-                    hours.rem_ceil(HOURS_PER_CIVIL_DAY),
-                )?;
-                span = span.try_days_ranged(days)?;
-                Ok(span)
-            }
-            Unit::Hour => {
-                let micros = nanos.div_ceil(NANOS_PER_MICRO);
-                span = span.try_nanoseconds_ranged(
-                    nanos.rem_ceil(NANOS_PER_MICRO),
-                )?;
-                let millis = micros.div_ceil(MICROS_PER_MILLI);
-                span = span.try_microseconds_ranged(
-                    micros.rem_ceil(MICROS_PER_MILLI),
-                )?;
-                let secs = millis.div_ceil(MILLIS_PER_SECOND);
-                span = span.try_milliseconds_ranged(
-                    millis.rem_ceil(MILLIS_PER_SECOND),
-                )?;
-                let mins = secs.div_ceil(SECONDS_PER_MINUTE);
-                span = span.try_seconds_ranged(
-                    secs.rem_ceil(SECONDS_PER_MINUTE),
-                )?;
-                let hours = mins.div_ceil(MINUTES_PER_HOUR);
-                span = span
-                    .try_minutes_ranged(mins.rem_ceil(MINUTES_PER_HOUR))?;
-                span = span.try_hours_ranged(hours)?;
-                Ok(span)
-            }
-            Unit::Minute => {
-                let micros = nanos.div_ceil(NANOS_PER_MICRO);
-                span = span.try_nanoseconds_ranged(
-                    nanos.rem_ceil(NANOS_PER_MICRO),
-                )?;
-                let millis = micros.div_ceil(MICROS_PER_MILLI);
-                span = span.try_microseconds_ranged(
-                    micros.rem_ceil(MICROS_PER_MILLI),
-                )?;
-                let secs = millis.div_ceil(MILLIS_PER_SECOND);
-                span = span.try_milliseconds_ranged(
-                    millis.rem_ceil(MILLIS_PER_SECOND),
-                )?;
-                let mins = secs.div_ceil(SECONDS_PER_MINUTE);
-                span =
-                    span.try_seconds(secs.rem_ceil(SECONDS_PER_MINUTE))?;
-                span = span.try_minutes_ranged(mins)?;
-                Ok(span)
-            }
-            Unit::Second => {
-                let micros = nanos.div_ceil(NANOS_PER_MICRO);
-                span = span.try_nanoseconds_ranged(
-                    nanos.rem_ceil(NANOS_PER_MICRO),
-                )?;
-                let millis = micros.div_ceil(MICROS_PER_MILLI);
-                span = span.try_microseconds_ranged(
-                    micros.rem_ceil(MICROS_PER_MILLI),
-                )?;
-                let secs = millis.div_ceil(MILLIS_PER_SECOND);
-                span = span.try_milliseconds_ranged(
-                    millis.rem_ceil(MILLIS_PER_SECOND),
-                )?;
-                span = span.try_seconds_ranged(secs)?;
-                Ok(span)
-            }
-            Unit::Millisecond => {
-                let micros = nanos.div_ceil(NANOS_PER_MICRO);
-                span = span.try_nanoseconds_ranged(
-                    nanos.rem_ceil(NANOS_PER_MICRO),
-                )?;
-                let millis = micros.div_ceil(MICROS_PER_MILLI);
-                span = span.try_microseconds_ranged(
-                    micros.rem_ceil(MICROS_PER_MILLI),
-                )?;
-                span = span.try_milliseconds_ranged(millis)?;
-                Ok(span)
-            }
-            Unit::Microsecond => {
-                let micros = nanos.div_ceil(NANOS_PER_MICRO);
-                span = span.try_nanoseconds_ranged(
-                    nanos.rem_ceil(NANOS_PER_MICRO),
-                )?;
-                span = span.try_microseconds_ranged(micros)?;
-                Ok(span)
-            }
-            Unit::Nanosecond => {
-                span = span.try_nanoseconds_ranged(nanos)?;
-                Ok(span)
+            
+            
+            OffsetConflict::AlwaysTimeZone => Ok(tz.into_ambiguous_zoned(dt)),
+            
+            
+            OffsetConflict::PreferOffset => Ok(
+                OffsetConflict::resolve_via_prefer(dt, offset, tz, is_equal),
+            ),
+            
+            
+            OffsetConflict::Reject => {
+                OffsetConflict::resolve_via_reject(dt, offset, tz, is_equal)
             }
         }
     }
 }
 
-pub struct Nudge {
-    
-    pub span: Span,
-    
-    
-    pub rounded_relative_end: NoUnits128,
-    
-    
-    
-    pub grew_big_unit: bool,
+impl OffsetConflict {
+// @fn OffsetConflict::resolve_via_prefer @src src/tz/offset.rs:1985
+#[verifier::spinoff_prover]
+pub fn resolve_via_prefer(
+        dt: DateTime,
+        given: Offset,
+        tz: TimeZone,
+        is_equal: impl Fn(Offset, Offset) -> bool,
+    ) -> (r: AmbiguousZoned)
+    requires
+        forall|a: Offset, b: Offset, x: bool| is_equal.ensures((a, b), x) ==> x == (a == b), forall|a: Offset, b: Offset| is_equal.requires((a, b)),
+    ensures
+        r.tz == tz, r.ts.dt == dt,
+    // the candidate set handed to the strategy: the given offset alone when it is one of a fold's two, else the zone's own answer
+    r.ts.offset == (match tz_amb(tz, dt) {
+        AmbiguousOffset::Fold { before, after } => if given == before || given == after { AmbiguousOffset::Unambiguous { offset: given } } else { tz_amb(tz, dt) },
+        _ => tz_amb(tz, dt) }),
+{
+        use AmbiguousOffset::*;
+
+        let amb = tz.to_ambiguous_timestamp(dt);
+        match amb.offset() {
+            
+            
+            
+            
+            Fold { before, after }
+                if is_equal(given, before) || is_equal(given, after) =>
+            {
+                let kind = Unambiguous { offset: given };
+                AmbiguousTimestamp::new(dt, kind)
+            }
+            _ => amb,
+        }
+        .into_ambiguous_zoned(tz)
+    }
 }
 
-impl Nudge {
-// @fn Nudge::relative_invariant @src src/span.rs:6378
+impl OffsetConflict {
+// @fn OffsetConflict::resolve_via_reject @src src/tz/offset.rs:2022
 #[verifier::spinoff_prover]
-pub fn relative_invariant(
-        balanced: Span,
-        relative_end: NoUnits128,
-        smallest: Unit,
-        largest: Unit,
-        increment: NoUnits128,
-        mode: RoundMode,
-    ) -> (r: Result<Nudge, Error>)
+pub fn resolve_via_reject(
+        dt: DateTime,
+        given: Offset,
+        tz: TimeZone,
+        is_equal: impl Fn(Offset, Offset) -> bool,
+    ) -> (r: Result<AmbiguousZoned, Error>)
     requires
-        span_wf(balanced), unit_rank(smallest) <= 7,
-    0 < inc_ns(smallest, increment) <= 0x7fff_ffff_ffff_ffff,
-    in_UnixNanoseconds(relative_end.val as int),
+        forall|a: Offset, b: Offset, x: bool| is_equal.ensures((a, b), x) ==> x == (a == b), forall|a: Offset, b: Offset| is_equal.requires((a, b)),
     ensures
-        round_ok(mode, inv_ns(span_view(balanced)), inc_ns(smallest, increment), ri_rnd(balanced, smallest, increment, mode)),
-    r.is_ok() <==> in_limit(top_rank(largest), quot(ri_rnd(balanced, smallest, increment, mode), top_rank(largest))),
-    // years and months are kept; days and the sub-day units are those of the balanced form of the rounded count
-    r.is_ok() ==> span_wf(r.unwrap().span) && span_view(r.unwrap().span).y == span_view(balanced).y && span_view(r.unwrap().span).mo == span_view(balanced).mo
-        && sv_below(span_view(r.unwrap().span), 7) == sv_below(bal(ri_rnd(balanced, smallest, increment, mode), top_rank(largest)), 7),
-    // conservation: the span's uniform units denote exactly the rounded count
-    r.is_ok() && span_view(balanced).w == bal(ri_rnd(balanced, smallest, increment, mode), top_rank(largest)).w ==> inv_ns(span_view(r.unwrap().span)) == ri_rnd(balanced, smallest, increment, mode),
-    r.is_ok() ==> r.unwrap().rounded_relative_end.val == relative_end.val + (ri_rnd(balanced, smallest, increment, mode) - inv_ns(span_view(balanced))),
-    r.is_ok() ==> r.unwrap().grew_big_unit == (isgn(quot(ri_rnd(balanced, smallest, increment, mode), 6) - quot(inv_ns(span_view(balanced)), 6)) == sv_sign(span_view(balanced))),
+        r.is_ok() <==> offset_valid(tz, dt, given),
+    r.is_ok() ==> r.unwrap().tz == tz && r.unwrap().ts.dt == dt
+        && r.unwrap().ts.offset == (match tz_amb(tz, dt) { AmbiguousOffset::Fold { before, after } => AmbiguousOffset::Unambiguous { offset: given }, _ => tz_amb(tz, dt) }),
 {
-        hide(round_ok); hide(tdiv); hide(trem); hide(spec_set);
-        proof { lemma_inv_bound(span_view(balanced)); lemma_set_all(); }
+        use AmbiguousOffset::*;
+
+        let amb = tz.to_ambiguous_timestamp(dt);
+        match amb.offset() {
+            Unambiguous { offset } if !is_equal(given, offset) => Err(verif_err()),
+            Unambiguous { .. } => Ok(amb.into_ambiguous_zoned(tz)),
+            Gap { before, after } => {
+                
+                
+                
+                
+                
+                
+                
+                
+                
+                
+                Err(verif_err())
+            }
+            Fold { before, after }
+                if !is_equal(given, before) && !is_equal(given, after) =>
+            {
+                Err(verif_err())
+            }
+            Fold { .. } => {
+                let kind = Unambiguous { offset: given };
+                Ok(AmbiguousTimestamp::new(dt, kind).into_ambiguous_zoned(tz))
+            }
+        }
+    }
+}
+
+#[derive(Clone, Copy, Debug)]
+pub struct ZonedRound {
+    pub round: DateTimeRound,
+}
+
+impl ZonedRound {
+// @fn ZonedRound::round @src src/zoned.rs:4249
+#[verifier::spinoff_prover]
+pub fn round(&self, zdt: &Zoned) -> (r: Result<Zoned, Error>)
+    ensures
+        // sub-day units: round the civil datetime (C10 contract of DateTimeRound::round), then re-resolve keeping the original offset when still valid
+    cfg_smallest(self.round) != Unit::Day ==> (match dt_round(self.round, zdt.dt()) {
+        None => r.is_err(),
+        Some(end) => r.is_ok() == reresolve(zdt.tz(), end, zdt.off()).is_some()
+            && (r.is_ok() ==> r.unwrap() == zoned_of(reresolve(zdt.tz(), end, zdt.off()).unwrap(), zdt.tz())),
+    }),
+{
+        let start = zdt.datetime();
+        if self.round.get_smallest() == Unit::Day {
+            return self.round_days(zdt);
+        }
+        let end = self.round.round(start)?;
+        
+        
+        
+        let amb = OffsetConflict::PreferOffset.resolve(
+            end,
+            zdt.offset(),
+            zdt.time_zone().clone(),
+        )?;
+        amb.compatible()
+    }
+}
+
+impl ZonedRound {
+// @fn ZonedRound::round_days @src src/zoned.rs:4271
+#[verifier::spinoff_prover]
+pub fn round_days(&self, zdt: &Zoned) -> (r: Result<Zoned, Error>)
+    requires
+        cfg_smallest(self.round) == Unit::Day,
+    ensures
+        // days: the start of this civil day plus the mode-rounded elapsed time, in units of that day's REAL length
+    r.is_ok() ==> cfg_increment(self.round) == 1 && start_of_day_ts(zdt).is_some()
+        && add_one_day_ts(start_of_day_ts(zdt).unwrap(), zdt.tz()).is_some()
+        && ({ let s = ts_ns(start_of_day_ts(zdt).unwrap()); let e = ts_ns(add_one_day_ts(start_of_day_ts(zdt).unwrap(), zdt.tz()).unwrap());
+              in_ZonedDayNanoseconds(e - s)
+              && r.unwrap() == zoned_of(ts_of_ns(s + round_val(cfg_mode(self.round), ts_ns(zdt.ts()) - s, e - s)), zdt.tz()) }),
+    cfg_increment(self.round) != 1 ==> r.is_err(),
+{
+        { let verif_da: bool = (self.round.get_smallest()) == (Unit::Day); assert(verif_da); };
 
         
-        assert!(smallest <= Unit::Week);
+        
+        
+        increment::for_datetime(Unit::Day, self.round.get_increment())?;
 
-        let sign = balanced.get_sign_ranged();
-        let balanced_nanos = balanced.to_invariant_nanoseconds();
-        let rounded_nanos = mode.round_by_unit_in_nanoseconds(
-            balanced_nanos,
-            smallest,
-            increment,
-        );
-        proof {
-            lemma_rnd(mode, inv_ns(span_view(balanced)), inc_ns(smallest, increment), rounded_nanos.val as int);
-            lemma_round_sign(mode, inv_ns(span_view(balanced)), inc_ns(smallest, increment), rounded_nanos.val as int);
-        }
-
-        let span = Span::from_invariant_nanoseconds(largest, rounded_nanos)
-            .verif_with_context()?
-            .years_ranged(balanced.get_years_ranged())
-            .months_ranged(balanced.get_months_ranged())
-            .weeks_ranged(balanced.get_weeks_ranged());
-
-        let diff_nanos = rounded_nanos - balanced_nanos;
-        proof { lemma_tdiv(rounded_nanos.val as int, 86_400_000_000_000); lemma_tdiv(balanced_nanos.val as int, 86_400_000_000_000); }
-
-        let diff_days = rounded_nanos.div_ceil(NANOS_PER_CIVIL_DAY)
-            - balanced_nanos.div_ceil(NANOS_PER_CIVIL_DAY);
-        let grew_big_unit = diff_days.signum() == sign;
-        let rounded_relative_end = relative_end + diff_nanos;
-        Ok(Nudge { span, rounded_relative_end, grew_big_unit })
+        
+        
+        
+        
+        
+        let start = zdt.start_of_day().verif_with_context()?;
+        let end = start
+            .checked_add(verif_span_one_day())
+            .verif_with_context()?;
+        let span = start
+            .timestamp()
+            .until_nanoseconds(end.timestamp())
+            .verif_with_context()?;
+        let nanos = span.get_nanoseconds_ranged();
+        let day_length =
+            verif_try_rfrom_ZonedDayNanoseconds_64(nanos)
+                .verif_with_context()?;
+        let progress = zdt.timestamp().as_nanosecond_ranged()
+            - start.timestamp().as_nanosecond_ranged();
+        let rounded = self.round.get_mode().verif_round(progress, day_length);
+        let nanos = start
+            .timestamp()
+            .as_nanosecond_ranged()
+            .verif_m_try_checked_add_UnixNanoseconds(rounded)?;
+        Ok(Timestamp::from_nanosecond_ranged(nanos)
+            .to_zoned(zdt.time_zone().clone()))
     }
-}
-
-impl Nudge {
-// @fn Nudge::relative_zoned_time @src src/span.rs:6478
-#[verifier::spinoff_prover]
-pub fn relative_zoned_time(
-        balanced: Span,
-        relative_start: &RelativeZoned<'_>,
-        smallest: Unit,
-        increment: NoUnits128,
-        mode: RoundMode,
-    ) -> (r: Result<Nudge, Error>)
-    requires
-        span_wf(balanced), unit_rank(smallest) <= 5,
-    0 < inc_ns(smallest, increment) <= 86_400_000_000_000,
-    ensures
-        // (e) both roundings are the mode-prescribed ones
-    round_ok(mode, time_ns(span_view(balanced)), inc_ns(smallest, increment), zt_x1(balanced, inc_ns(smallest, increment), mode)),
-    zt_ok(*relative_start, balanced) && zt_grow(*relative_start, balanced, inc_ns(smallest, increment), mode)
-        ==> round_ok(mode, zt_beyond(*relative_start, balanced, inc_ns(smallest, increment), mode), inc_ns(smallest, increment), zt_fin(*relative_start, balanced, inc_ns(smallest, increment), mode)),
-    r.is_ok() <==> zt_ok(*relative_start, balanced) && in_SpanHours(quot(zt_fin(*relative_start, balanced, inc_ns(smallest, increment), mode), 5)),
-    // (a) the sub-day part of the span is the final rounded count, balanced up to hours, and a whole multiple of the increment
-    r.is_ok() ==> span_wf(r.unwrap().span) && sv_below(span_view(r.unwrap().span), 6) == bal(zt_fin(*relative_start, balanced, inc_ns(smallest, increment), mode), 5),
-    r.is_ok() ==> time_ns(span_view(r.unwrap().span)) == zt_fin(*relative_start, balanced, inc_ns(smallest, increment), mode)
-        && zt_fin(*relative_start, balanced, inc_ns(smallest, increment), mode) % inc_ns(smallest, increment) == 0,
-    // (b) years, months and weeks are kept; days grow by one day in the span's direction exactly when rounding reached the end of the day
-    r.is_ok() ==> span_view(r.unwrap().span).y == span_view(balanced).y && span_view(r.unwrap().span).mo == span_view(balanced).mo && span_view(r.unwrap().span).w == span_view(balanced).w,
-    r.is_ok() && (zt_sg(balanced) > 0 || !zt_grow(*relative_start, balanced, inc_ns(smallest, increment), mode)) ==> span_view(r.unwrap().span).d == (if zt_grow(*relative_start, balanced, inc_ns(smallest, increment), mode) { span_view(balanced).d + zt_sg(balanced) } else { span_view(balanced).d }),
-    // (c) the instant reference + span
-    r.is_ok() ==> r.unwrap().rounded_relative_end.val == (if zt_grow(*relative_start, balanced, inc_ns(smallest, increment), mode) { zt_r1(*relative_start, balanced) } else { zt_r0(*relative_start, balanced) })
-        + zt_fin(*relative_start, balanced, inc_ns(smallest, increment), mode),
-    // (d)
-    r.is_ok() ==> r.unwrap().grew_big_unit == zt_grow(*relative_start, balanced, inc_ns(smallest, increment), mode),
-{
-        hide(round_ok); hide(tdiv); hide(trem); hide(quot); hide(spec_set);
-        proof { lemma_inv_bound(span_view(balanced)); lemma_set_all(); }
-
-        let sign = balanced.get_sign_ranged();
-        let time_nanos =
-            balanced.only_lower(Unit::Day).to_invariant_nanoseconds();
-        let mut rounded_time_nanos =
-            mode.round_by_unit_in_nanoseconds(time_nanos, smallest, increment);
-        proof {
-            lemma_rnd(mode, time_ns(span_view(balanced)), inc_ns(smallest, increment), rounded_time_nanos.val as int);
-            lemma_round_sign(mode, time_ns(span_view(balanced)), inc_ns(smallest, increment), rounded_time_nanos.val as int);
-        }
-
-        let (relative0, relative1) = clamp_relative_span(
-            
-            &Relative::Zoned(relative_start.clone()),
-            balanced.without_lower(Unit::Day),
-            Unit::Day,
-            sign.rinto(),
-        )?;
-        let day_nanos = relative1 - relative0;
-        let beyond_day_nanos = rounded_time_nanos - day_nanos;
-
-        let mut day_delta = NoUnits::verif_N(0);
-        let rounded_relative_end =
-            if beyond_day_nanos == C(0) || beyond_day_nanos.signum() == sign {
-                day_delta += C(1);
-                rounded_time_nanos = mode.round_by_unit_in_nanoseconds(
-                    beyond_day_nanos,
-                    smallest,
-                    increment,
-                );
-                proof {
-                    lemma_rnd(mode, beyond_day_nanos.val as int, inc_ns(smallest, increment), rounded_time_nanos.val as int);
-                    lemma_round_sign(mode, beyond_day_nanos.val as int, inc_ns(smallest, increment), rounded_time_nanos.val as int);
-                }
-
-                relative1 + rounded_time_nanos
-            } else {
-                relative0 + rounded_time_nanos
-            };
-        proof { lemma_bal(rounded_time_nanos.val as int, 5); }
-
-
-        let span =
-            Span::from_invariant_nanoseconds(Unit::Hour, rounded_time_nanos)
-                .verif_with_context()?
-                .years_ranged(balanced.get_years_ranged())
-                .months_ranged(balanced.get_months_ranged())
-                .weeks_ranged(balanced.get_weeks_ranged())
-                .days_ranged(balanced.get_days_ranged() + day_delta);
-        let grew_big_unit = day_delta != C(0);
-        Ok(Nudge { span, rounded_relative_end, grew_big_unit })
-    }
-}
-
-// @fn round_span_invariant @src src/span.rs:6615
-#[verifier::spinoff_prover]
-pub fn round_span_invariant(
-    span: Span,
-    smallest: Unit,
-    largest: Unit,
-    increment: NoUnits128,
-    mode: RoundMode,
-) -> (r: Result<Span, Error>)
-    requires
-        span_wf(span), unit_rank(smallest) <= 7, unit_rank(largest) <= 7,
-    0 < unit_ns(smallest) * increment.val <= 0x7fff_ffff_ffff_ffff,
-    ensures
-        round_ok(mode, inv_ns(span_view(span)), unit_ns(smallest) * increment.val, rnd(mode, inv_ns(span_view(span)), unit_ns(smallest) * increment.val)),
-    r.is_ok() <==> in_limit(unit_rank(largest), quot(rnd(mode, inv_ns(span_view(span)), unit_ns(smallest) * increment.val), unit_rank(largest))),
-    r.is_ok() ==> span_wf(r.unwrap()) && balanced_as(span_view(r.unwrap()), rnd(mode, inv_ns(span_view(span)), unit_ns(smallest) * increment.val), unit_rank(largest)),
-{
-    hide(round_ok); hide(tdiv); hide(trem); hide(quot);
-
-    assert!(smallest <= Unit::Week);
-    assert!(largest <= Unit::Week);
-    let nanos = span.to_invariant_nanoseconds();
-    proof { lemma_inv_bound(span_view(span)); }
-
-    let rounded =
-        mode.round_by_unit_in_nanoseconds(nanos, smallest, increment);
-    proof { lemma_rnd(mode, inv_ns(span_view(span)), unit_ns(smallest) * increment.val, rounded.val as int); }
-
-    Span::from_invariant_nanoseconds(largest, rounded).verif_with_context()
 }
 
 // ==== end extracted ====
